@@ -36,10 +36,12 @@ def units(tier):
 
 
 def setup(ctx):
+    from .. import retain as _rt
+
     from gemdat.metrics import TrajectoryMetrics, TrajectoryMetricsStd
 
     for name in ('particle_density', 'mol_per_liter', 'tracer_diffusivity', 'tracer_diffusivity_center_of_mass', 'haven_ratio', 'tracer_conductivity', 'attempt_frequency', 'vibration_amplitude', 'amplitudes', 'speed'):
-        _mon.attach(TrajectoryMetrics, name, label=f'TrajectoryMetrics.{name}')
+        _mon.attach(TrajectoryMetrics, name, label=f'TrajectoryMetrics.{name}', retain=_rt.auto)
     for name in ('tracer_diffusivity', 'tracer_conductivity', 'vibration_amplitude', 'speed', 'amplitudes'):
         _mon.attach(TrajectoryMetricsStd, name, label=f'TrajectoryMetricsStd.{name}')
 
@@ -140,6 +142,13 @@ def run_unit(unit, rng, ctx):
     else:
         ctx.count('attempt_frequency_nan')
     ctx.check(close(Ms.tracer_diffusivity(dimensions=dim), D / s), f'{what}: time step x{s:.3f}: diffusivity did not scale by 1/s', wit)
+    # temperature law: another trajectory object with the same motion at another temperature, both alive
+    tq = float(rng.uniform(1.5, 3.0))
+    Mt_ = TrajectoryMetrics(gen.make_trajectory(m, sp, U - np.floor(U), time_step=dt, metadata={'temperature': temp * tq}))
+    ctx.check(close(Mt_.tracer_conductivity(z_ion=z, dimensions=dim), sigma / tq), f'{what}: temperature x{tq:.3f}: conductivity {float(Mt_.tracer_conductivity(z_ion=z, dimensions=dim))!r} != sigma / {tq:.3f} = {sigma / tq!r}', wit)
+    ctx.check(close(Mt_.tracer_diffusivity(dimensions=dim), D), f'{what}: temperature x{tq:.3f}: diffusivity changed', wit)
+    # ... and the first trajectory still answers for its own temperature (a fresh metrics object, nothing memoised)
+    ctx.check(close(TrajectoryMetrics(traj).tracer_conductivity(z_ion=z, dimensions=dim), sigma), f'{what}: after a second trajectory at {temp * tq:.1f} K was analysed, the conductivity of the first ({temp:.1f} K) is {float(TrajectoryMetrics(traj).tracer_conductivity(z_ion=z, dimensions=dim))!r}, the definition gives {sigma!r}', wit)
     ctx.check(close(Ms.tracer_conductivity(z_ion=z, dimensions=dim), sigma / s), f'{what}: time step x{s:.3f}: conductivity did not scale by 1/s', wit)
     if Dcom > 1e-6 * D:
         ctx.check(close(Mk.tracer_diffusivity_center_of_mass(dimensions=dim), Dcom * k**2, 1e-7), f'{what}: cell x{k:.3f}: COM diffusivity did not scale by k^2', wit)
